@@ -93,6 +93,9 @@ pub struct World {
     any_fault: bool,
     /// set by `ChildKeyAsNextMessage`, consumed by the next `Sign`
     pub next_message: Option<Vec<u8>>,
+    /// during the oracles of a `Sign` that was given an aux buffer: (class of the buffer, does the model
+    /// accept it as a valid or unused buffer of this key)
+    cur_aux: Option<(&'static str, bool)>,
 }
 
 pub fn heights(params: &[(u32, u32)]) -> Vec<u32> {
@@ -133,6 +136,7 @@ impl World {
             op_index: 0,
             any_fault: false,
             next_message: None,
+            cur_aux: None,
         }
     }
 
@@ -229,6 +233,15 @@ impl World {
                     if pubk != &want_pub {
                         let field = first_pub_diff(pubk, &want_pub);
                         self.violate("C08", format!("keygen-pub:{}", field), "keygen-model", format!("public key {} but the derivation gives {} (first difference in {})", hex(pubk), hex(&want_pub), field));
+                        if let Some(b) = &aux_before {
+                            if !b.is_empty() && b.iter().any(|&x| x != 0) {
+                                let cls = aux_class(b);
+                                self.violate("C10", format!("keygen-wrong-result-with-aux:{}", cls), "aux-transparency", format!("keygen with a {} aux buffer of {} bytes returned a public key that is not this seed's ({})", cls, b.len(), field));
+                                if matches!(model::check_aux(cfg.hash.spec(), &cfg.params, &cfg.seed, b), AuxCheck::Invalid(_)) {
+                                    self.violate("C11", format!("aux-wrong-result:keygen:{}", cls), "err-or-correct", format!("keygen with a malformed / unauthentic aux buffer ({}, {} bytes) returned a wrong public key", cls, b.len()));
+                                }
+                            }
+                        }
                     }
                     self.oracle_evaluated();
                 }
@@ -732,7 +745,16 @@ impl World {
         }
 
         // ---- oracles ----
+        self.cur_aux = match (&aux_before, aux_slot) {
+            (Some(b), Some(_)) => {
+                let cfg = &self.keys[ki].cfg;
+                let acceptable = !b.is_empty() && !matches!(model::check_aux(cfg.hash.spec(), &cfg.params, &cfg.seed, b), AuxCheck::Invalid(_));
+                Some((aux_class(b), acceptable))
+            }
+            _ => None,
+        };
         self.sign_oracles(ki, api_eff, cb, &kb, &decoded, &message, &outcome, &cb_log, released, successor_seen.as_deref(), aux_slot.is_some() && aux_before.is_some());
+        self.cur_aux = None;
 
         // transparency (C10): the same call without aux, computed by the library itself
         if self.opt.transparency {
@@ -1048,6 +1070,15 @@ impl World {
                     Err(e) => format!("unparseable: {}", e),
                 };
                 self.violate("C07", format!("sig-differs:{}", field_class(&field)), "rfc-exact-signature", format!("signature for counter {} of {} differs from the reference signer, first in {}", counter, shape, field));
+                // the same deviation seen from the cache file's side: with an aux buffer the result must be
+                // the result without one (C10), and a buffer the model rejects must lead to an error or a
+                // correct result (C11)
+                if let Some((cls, acceptable)) = self.cur_aux {
+                    self.violate("C10", format!("sign-wrong-result-with-aux:{}", cls), "aux-transparency", format!("signature made with a {} aux buffer (counter {} of {}) is not the signature of this key and message, first difference in {}", cls, counter, shape, field));
+                    if !acceptable {
+                        self.violate("C11", format!("aux-wrong-result:sign:{}", cls), "err-or-correct", format!("sign with a malformed / unauthentic aux buffer ({}) returned a wrong signature (counter {} of {})", cls, counter, shape));
+                    }
+                }
             }
             if sig.len() != model::sig_len(n, params) {
                 self.violate("C07", "sig-length", "rfc-exact-signature", format!("signature has {} bytes, the RFC formulas give {}", sig.len(), model::sig_len(n, params)));
